@@ -1120,6 +1120,9 @@ SIGNATURES = {
     "define-option-macro-error": dict(kind="escaped", detail=r"unknown exception", args=r"(^| )-D"),
     "json-entry-type-mismatch": dict(kind="uncaught", detail=r"std::runtime_error\|.*type mismatch! call is<type>", args=r"--project=\S*\.json"),
     "vcxproj-condition-segv": dict(kind="signal", detail=r"11", args=r"--project=\S*\.vcxproj", input=r"Condition="),
+    "self-include-twice-hang": dict(kind="timeout", detail=r"", pred="self_include_twice"),
+    "nested-call-stack-overflow": dict(kind="signal", detail=r"11", input=r"(?:\w\(){3000}"),
+    "leakautovar-nested-call-exponential": dict(kind="timeout", detail=r"", input=r"(?:\b\w+\(){25}"),
     "ast-nested-lambda-hang": dict(kind="timeout", detail=r"", input=r"\[\]\s*\{[^;]*\[\]\s*\{"),
     "vcxproj-condition-internalerror": dict(kind="uncaught", detail=r"InternalError", args=r"--project=\S*\.vcxproj", input=r"Condition="),
     "gui-project-library-comma": dict(kind="uncaught", detail=r"std::runtime_error\|handling of multiple libraries", args=r"--project=\S*\.cppcheck"),
@@ -1141,6 +1144,12 @@ def attribute(files, args, o):
             continue
         if "input" in sig and not re.search(sig["input"], inp):
             continue
+        if sig.get("pred") == "self_include_twice":
+            def twice(name, data):
+                t = data if isinstance(data, str) else data.decode("latin-1")
+                return len(re.findall(r'#\s*include\s*"' + re.escape(os.path.basename(name)) + '"', t)) >= 2
+            if not any(twice(n_, d_) for n_, d_ in files.items()):
+                continue
         return key
     return None
 
@@ -1344,6 +1353,51 @@ def gen_option_file(rng):
     return (dict(src, **{"g.cppcheck": data}), ["--project=g.cppcheck"], "gui-project")
 
 
+def gen_ref_recursion(rng, kind=None, k=None):
+    """valid C++: reference-returning functions whose return statements are again calls of such functions (k-way fan-out of
+    getLifetimeTokens / followAllReferences), self recursion, mutual recursion, deep call chains, member accessors"""
+    kind = kind or rng.choice(["self", "self", "mutual", "chain", "member"])
+    k = k or rng.choice([2, 3, 4, 5])
+    L = ["struct Node { Node* c[%d]; int value; %s };" % (k, "int& get(int i);" if kind == "member" else ""), "static int outside;"]
+    if kind == "self":
+        L.append("int& cell(Node* q, int i, int h)\n{\n    if (!q)\n        return outside;\n    if (h == 0)\n        return q->value;")
+        for j in range(k - 1):
+            L.append("    if (i %% %d == %d)\n        return cell(q->c[%d], i / %d, h - 1);" % (k, j, j, k))
+        L.append("    return cell(q->c[%d], i / %d, h - 1);\n}" % (k - 1, k))
+        acc = "cell(root, i, 9)"
+    elif kind == "mutual":
+        L.append("int& odd(Node* q, int i);")
+        L.append("int& even(Node* q, int i)\n{\n    if (!q)\n        return outside;")
+        for j in range(k - 1):
+            L.append("    if (i %% %d == %d)\n        return odd(q->c[%d], i / %d);" % (k, j, j, k))
+        L.append("    return odd(q->c[%d], i + 1);\n}" % (k - 1))
+        L.append("int& odd(Node* q, int i)\n{\n    if (!q || i == 0)\n        return q ? q->value : outside;")
+        for j in range(k - 1):
+            L.append("    if (i %% %d == %d)\n        return even(q->c[%d], i / %d);" % (k, j, j, k))
+        L.append("    return even(q->c[%d], i - 1);\n}" % (k - 1))
+        acc = "even(root, i)"
+    elif kind == "chain":
+        n = rng.choice([8, 16, 30])
+        L.append("int& f%d(Node* q, int i) { return i ? q->value : outside; }" % n)
+        for lvl in range(n - 1, -1, -1):
+            body = ["int& f%d(Node* q, int i)\n{" % lvl]
+            for j in range(k - 1):
+                body.append("    if (i == %d)\n        return f%d(q->c[%d], i + %d);" % (j, lvl + 1, j, j))
+            body.append("    return f%d(q->c[%d], i);\n}" % (lvl + 1, k - 1))
+            L.append("\n".join(body))
+        acc = "f0(root, i)"
+    else:
+        L.append("int& Node::get(int i)\n{\n    if (i == 0)\n        return value;")
+        for j in range(k - 1):
+            L.append("    if (i %% %d == %d)\n        return c[%d]->get(i / %d);" % (k, j, j, k))
+        L.append("    return c[%d]->get(i - 1);\n}" % (k - 1))
+        acc = "root->get(i)"
+    L.append("void bump(Node* root, int i)\n{\n    int& r = %s;\n    ++r;\n}" % acc)
+    L.append("int peek(Node* root, int i)\n{\n    return %s;\n}" % acc)
+    L.append("int* addr(Node* root, int i)\n{\n    int& r = %s;\n    return &r;\n}" % acc)
+    return ("refrec.cpp", ("\n".join(L) + "\n").encode(), "c++", "ref-recursion:%s:k=%d" % (kind, k))
+
+
 def shipped_corpus():
     out = []
     for d, lang in (("fuzz-crash", "c++"), ("fuzz-crash_c", "c"), ("fuzz-timeout", "c++")):
@@ -1531,6 +1585,12 @@ def run(ctx, res):
     for _ in range(n_src):
         name, data, lang, desc = gen_source(rng, seeds)
         batch.append(({name: data}, gen_options(rng, lang) + [name], desc, "gen-source"))
+    # hostile-but-valid stream: reference-returning functions with k recursive returns (the fan-out of getLifetimeTokens /
+    # followAllReferences); a run that exceeds the time limit is the concrete replay
+    rr = [("self", 4), ("mutual", 3), ("chain", 3), ("member", 5)] + [(None, None)] * (36 if thorough else 2)
+    for kind, k in rr:
+        name, data, lang, desc = gen_ref_recursion(rng, kind, k)
+        batch.append(({name: data}, rng.choice([[], ["--enable=all", "--inconclusive"], ["--check-level=exhaustive"], ["--enable=all", "--inconclusive", "--check-level=exhaustive"]]) + [name], desc, "gen-ref-recursion"))
     for _ in range(n_opt):
         files, args, desc = gen_option_file(rng)
         batch.append((files, args, desc, "gen-option-file"))
